@@ -178,6 +178,11 @@ func jsonMain(args []string) {
 		created := time.Date(2020+p.intn(5), time.Month(1+p.intn(12)), 1+p.intn(28), p.intn(24), p.intn(60), p.intn(60), p.intn(2)*p.intn(1e9), time.UTC)
 		ctok, _ := json.Marshal(created)
 		e := &eventlogger.Event{Type: eventlogger.EventType(ty), CreatedAt: created, Formatted: map[string][]byte{}, Payload: payload}
+		if p.chance(1, 5) {
+			// an event that was not made by Broker.Send (built by a caller or by another node): no table yet
+			e.Formatted = nil
+			st.hit("nil-format-table")
+		}
 		// a quarter of the events reach the formatter with a json entry already in the table (an earlier
 		// formatter of the pipeline, another pipeline of the type, the caller): the formatter is the last writer
 		var stale []byte
